@@ -57,6 +57,8 @@ static void num(const char *s) {
     /* lastlen is documented as the position of the first byte after the number */
     printf(",\"p10used\":%zu,\"p16used\":%zu", l10, l16);
     pnum("clc", "cl", cl); pnum("chc", "ch", ch);
+    pnum("w10c", "w10", htp_parse_positive_integer_whitespace(h, n, 10)); pnum("w16c", "w16", htp_parse_positive_integer_whitespace(h, n, 16));
+    printf(",\"status\":%d", htp_parse_status(b));
     printf("}\n");
     bstr_free(b); free(h);
 }
@@ -81,7 +83,7 @@ int main(int argc, char **argv) {
         static const char *BASE[] = {"0", "1", "9", "10", "65535", "65536", "2147483647", "2147483648", "2147483646", "4294967295", "4294967296",
             "9223372036854775807", "9223372036854775808", "9223372036854775806", "18446744073709551615", "18446744073709551616", "99999999999999999999",
             "7fffffff", "80000000", "7FFFFFFF", "ffffffff", "100000000", "7fffffffffffffff", "8000000000000000", "ffffffffffffffff", "10000000000000000",
-            "a", "f", "g", "z", "", "12a", "1f", "0x10", "-1", "+1", "1e3", "00000000000000000000001", "000", "0000000000000000000009223372036854775807"};
+            "99", "100", "200", "999", "1000", "0200", "a", "f", "g", "z", "", "12a", "1f", "0x10", "-1", "+1", "1e3", "00000000000000000000001", "000", "0000000000000000000009223372036854775807"};
         static const char *PRE[] = {"", " ", "\t", "  ", "0", "00", "x", "\r\n", ";", "-"};
         static const char *POST[] = {"", " ", "\t", " x", ";ext", "\r\n", "g", ".5", " 1"};
         for (size_t i = 0; i < sizeof BASE / sizeof *BASE; i++) for (size_t p = 0; p < sizeof PRE / sizeof *PRE; p++) for (size_t q = 0; q < sizeof POST / sizeof *POST; q++) {
